@@ -85,6 +85,9 @@ def alphabet(cls, nodes, bulk_max=2):
         for k in range(1, bulk_max + 1):
             for es in itertools.product(ordered, repeat=k):
                 ops.append([OP_ADDS, [list(e) for e in es], et])
+        ops.append([OP_ADDS, [], et])                                # boundary: explicitly empty batches
+        ops.append([OP_REMS, [], et])
+        ops.append([OP_REMS, [list(ordered[0]), list(ordered[0])], et])   # the same edge listed twice
     for a, b in ordered:
         ops.append([OP_ORIENT, a, b])
     return ops
@@ -154,6 +157,28 @@ def gen_cases(tier, rng):
         seqs = list(itertools.product(al3, repeat=2))
         for seq in seqs[::step]:
             yield {"kind": "hist2n3", "cls": cls, "ops": list(seq)}
+    # ARGUMENT INTEGRITY / ALIASING: two objects P, Q built from the SAME constructor argument objects (networkx graph objects
+    # per layer, dict-of-dicts, edge lists); every op goes to P or to Q; both objects and the argument objects are observed after
+    # every op.  No "all" insertions here (known finding, exercised elsewhere).
+    for cls in range(5):
+        if PAG_LIKE[cls]:
+            ctors = [[OP_CTOR, [], [], [], [[0, 1], [1, 0]]], [OP_CTOR, [[1, 0]], [], [], [[0, 1]]], [OP_CTOR, [[0, 1]], [[0, 1]], [], []],
+                     [OP_CTOR, [], [], [[0, 1]], []], [OP_CTOR, [], [], [], []]]
+        else:
+            ctors = [[OP_CTOR, [], [[0, 1]], [], []], [OP_CTOR, [[0, 1]], [], [], []], [OP_CTOR, [], [], [], []]]
+        al = [o for o in alphabet(cls, [0, 1], bulk_max=1) if o[-1] != 4 or o[0] in (OP_REM, OP_ORIENT)]
+        al = [o for o in al if not (o[0] in (OP_ADD, OP_ADDS) and o[-1] == 4)]
+        tal = [[tgt, o] for tgt in (0, 1) for o in al]
+        for ctor in ctors:
+            for argkind in ("graph", "dict", "list"):
+                for x in tal:
+                    yield {"kind": "alias1", "cls": cls, "ctor": ctor, "argkind": argkind, "ops": [x]}
+            seqs = list(itertools.product(tal, repeat=2))
+            for seq in (seqs if tier == "thorough" else seqs[::5]):
+                yield {"kind": "alias2", "cls": cls, "ctor": ctor, "argkind": "graph", "ops": list(seq)}
+        for _ in range(20 if tier == "quick" else 200):
+            yield {"kind": "alias_rand", "cls": cls, "ctor": rng.choice(ctors), "argkind": rng.choice(["graph", "graph", "dict"]),
+                   "ops": [rng.choice(tal) for _ in range(12)]}
     # time-series classes on a LAGGED pair: node 0 = (x0, -1) earlier, node 1 = (x1, 0) later.  The layers only accept marks
     # given as (earlier, later), so insertions / removals name (0, 1); orient is called in both argument orders:
     # Orient 0 1 (u earlier: lagswap=false) and OrientLag 1 0 (u later: the lagswap=true instance of the generated function)
@@ -182,12 +207,17 @@ def gen_cases(tier, rng):
 def encode(case):
     if case["kind"] == "table":
         return [1]
+    if case["kind"].startswith("alias"):
+        return [2, case["cls"], case["ctor"], [[tgt, o] for tgt, o in case["ops"]]]
     return [0, case["cls"], case["ops"]]
 
 
 def decode(case, v):
     if case["kind"] == "table":
         return {"table": v}
+    obs = lambda s: {"raised": bool(s[0]), "mec": bool(s[1]), "D": s[2], "B": s[3], "U": s[4], "C": s[5]}  # noqa: E731
+    if case["kind"].startswith("alias"):
+        return {"steps2": [[obs(r[0]), obs(r[1])] for r in v]}
     return {"steps": [{"raised": bool(s[0]), "mec": bool(s[1]), "D": s[2], "B": s[3], "U": s[4], "C": s[5]} for s in v]}
 
 
@@ -258,6 +288,9 @@ def observe(G, cls, inv):
     return out
 
 
+_ARG_MUTATED = []   # filled when a call changed a mutable argument (bulk list); read by run_history after every op
+
+
 def apply_op(G, cls, nd, o):
     """returns the graph to continue with (a new object after a successful constructor call)"""
     k = o[0]
@@ -267,11 +300,23 @@ def apply_op(G, cls, nd, o):
         else:
             G.add_edge(nd(o[1]), nd(o[2]), ET_NAMES[o[3]])
     elif k == OP_ADDS:
-        G.add_edges_from([(nd(a), nd(b)) for a, b in o[1]], ET_NAMES[o[2]])
+        arg = [(nd(a), nd(b)) for a, b in o[1]]
+        keep = list(arg)
+        try:
+            G.add_edges_from(arg, ET_NAMES[o[2]])
+        finally:
+            if arg != keep:
+                _ARG_MUTATED.append("add_edges_from")
     elif k == OP_REM:
         G.remove_edge(nd(o[1]), nd(o[2]), ET_NAMES[o[3]])
     elif k == OP_REMS:
-        G.remove_edges_from([(nd(a), nd(b)) for a, b in o[1]], ET_NAMES[o[2]])
+        arg = [(nd(a), nd(b)) for a, b in o[1]]
+        keep = list(arg)
+        try:
+            G.remove_edges_from(arg, ET_NAMES[o[2]])
+        finally:
+            if arg != keep:
+                _ARG_MUTATED.append("remove_edges_from")
     elif k in (OP_ORIENT, OP_ORIENTLAG):
         G.orient_uncertain_edge(nd(o[1]), nd(o[2]))
     elif k == OP_CTOR:
@@ -295,6 +340,9 @@ def run_history(case):
         st = observe(G, cls, inv)
         st["raised"] = exc is not None
         st["exc"] = exc
+        if _ARG_MUTATED:
+            st["argmut"] = list(_ARG_MUTATED)
+            del _ARG_MUTATED[:]
         if exc is not None:
             st["atomic"] = gr.snapshot(G) == before
         try:
@@ -303,6 +351,89 @@ def run_history(case):
             st["mec"] = False
         steps.append(st)
     return {"steps": steps}
+
+
+# ---- two objects from the SAME constructor arguments (aliasing / argument integrity) ----
+def ctor_args(cls, nd, o, argkind):
+    """constructor keyword arguments for the Construct op o; argkind "graph": one networkx graph object per layer (DiGraph for
+    directed / circle, Graph for undirected / bidirected), "list": edge lists, "dict": dict-of-dicts"""
+    import networkx as nx
+    m = lambda es: [(nd(x), nd(y)) for x, y in es]  # noqa: E731
+
+    def mk(es, directed):
+        es = m(es)
+        if argkind == "list":
+            return es
+        g = (nx.DiGraph if directed else nx.Graph)(es)
+        if argkind == "dict":
+            return nx.to_dict_of_dicts(g)
+        return g
+    kw = {"incoming_directed_edges": mk(o[1], True), "incoming_undirected_edges": mk(o[2], False)}
+    if PAG_LIKE[cls]:
+        kw["incoming_bidirected_edges"] = mk(o[3], False)
+        kw["incoming_circle_edges"] = mk(o[4], True)
+    return kw
+
+
+def arg_snapshot(kw):
+    out = {}
+    for k, a in kw.items():
+        if hasattr(a, "edges"):
+            es = [tuple(e) if a.is_directed() else tuple(sorted(e, key=repr)) for e in a.edges()]
+            out[k] = (type(a).__name__, sorted(map(repr, a.nodes)), sorted(map(repr, es)), repr(sorted(a.graph.items())))
+        else:
+            out[k] = repr(a)
+    return out
+
+
+def run_alias(case):
+    """P and Q built from the same argument objects; every op goes to one of them; both and the arguments observed after each"""
+    from pywhy_graphs.algorithms.generic import is_valid_mec_graph
+    cls = case["cls"]
+    nd, inv = node_maps(cls, case)
+    K = _classes()[cls]
+    kw = ctor_args(cls, nd, case["ctor"], case["argkind"])
+    snap0 = arg_snapshot(kw)
+    objs = [None, None]
+    exc0 = None
+    try:
+        objs[0] = K(**kw)
+        objs[1] = K(**kw)
+    except Exception as e:  # noqa
+        exc0 = type(e).__name__
+        objs = [K(), K()]
+
+    def both(raised_on=None, exc=None):
+        row = []
+        for i, G in enumerate(objs):
+            st = observe(G, cls, inv)
+            st["raised"] = raised_on == i
+            st["exc"] = exc if raised_on == i else None
+            try:
+                st["mec"] = bool(is_valid_mec_graph(G))
+            except RuntimeError:
+                st["mec"] = False
+            row.append(st)
+        return row
+    steps = [both()]
+    if exc0 is not None:
+        for st in steps[0]:
+            st["raised"], st["exc"] = True, exc0
+    args_ok = [arg_snapshot(kw) == snap0]
+    for tgt, o in case["ops"]:
+        before = gr.snapshot(objs[tgt])
+        exc = None
+        try:
+            objs[tgt] = apply_op(objs[tgt], cls, nd, o)
+        except Exception as e:  # noqa
+            exc = type(e).__name__
+        row = both(tgt if exc else None, exc)
+        if exc is not None:
+            row[tgt]["atomic"] = gr.snapshot(objs[tgt]) == before
+        del _ARG_MUTATED[:]
+        steps.append(row)
+        args_ok.append(arg_snapshot(kw) == snap0)
+    return {"steps2": steps, "args_ok": args_ok}
 
 
 # ---- pair states on real two-node graphs (built through the layer objects directly) ----
@@ -442,6 +573,8 @@ def real_tables():
 def run_impl(case):
     if case["kind"] == "table":
         return real_tables()
+    if case["kind"].startswith("alias"):
+        return run_alias(case)
     return run_history(case)
 
 
@@ -499,10 +632,14 @@ def compare(case, impl, model, ignore_inv=False):
         return "harness-exception"
     if case["kind"] == "table":
         return compare_tables(impl, model)
+    if case["kind"].startswith("alias"):
+        return compare_alias(case, impl, model)
     if len(impl["steps"]) != len(model["steps"]):
         return "harness-step-count"
     broken = False
     for i, (a, m, o) in enumerate(zip(impl["steps"], model["steps"], case["ops"])):
+        if a.get("argmut"):
+            return "argument-mutated"
         if not a["inv"] and not ignore_inv:
             return "invariant-broken"
         # (classification only) once a contradictory state exists, a raise half-way through orient_uncertain_edge is a
@@ -522,6 +659,30 @@ def compare(case, impl, model, ignore_inv=False):
     return None
 
 
+def compare_alias(case, impl, model):
+    """two objects built from the same argument objects: each must evolve exactly as an independent copy of the model, the
+    untouched one must not change, the argument objects must stay as they were given"""
+    if len(impl["steps2"]) != len(model["steps2"]):
+        return "harness-step-count"
+    ops = [None] + [o for _, o in case["ops"]]
+    for i, (rows, mrows) in enumerate(zip(impl["steps2"], model["steps2"])):
+        if not impl["args_ok"][i]:
+            return "constructor-argument-mutated"
+        for a, m in zip(rows, mrows):
+            for k in "DBUC":
+                if a[k] != m[k]:
+                    return "alias-edges"
+            if not a["inv"] and case["cls"] != 3:
+                return "alias-invariant-broken"
+            if a["mec"] != m["mec"]:
+                return "alias-is_valid_mec_graph"
+            if a["raised"] and not a.get("atomic", True) and case["cls"] != 3:
+                return "alias-raise-not-atomic"
+            if (i == 0 or ops[i][0] not in (OP_REM, OP_REMS)) and a["raised"] != m["raised"]:
+                return "alias-raised"
+    return None
+
+
 KEY_TSPAG = "StationaryTimeSeriesPAG:no-insertion-guard"
 KEY_ALL = "add_edge:edge_type-all-inserts-into-every-layer"
 
@@ -533,7 +694,7 @@ def classify(case, impl, model):
                   (c03_reachable excludes exactly those insertions, so nothing else can be the origin in the model)
       KEY_TSPAG : the class is StationaryTimeSeriesPAG, whose insertions are unguarded (wrapper shape GNone; the class is
                   excluded from the theorems)"""
-    if case.get("kind") == "table" or "exc" in impl or "steps" not in impl:
+    if case.get("kind") == "table" or case.get("kind", "").startswith("alias") or "exc" in impl or "steps" not in impl:
         return None
     if compare(case, impl, model) != "invariant-broken" or compare(case, impl, model, ignore_inv=True) is not None:
         return None
@@ -576,6 +737,9 @@ def contradictory_pairs(step, cls):
 def nontrivial(case, model):
     if case["kind"] == "table":
         return True
+    if case["kind"].startswith("alias"):
+        s2 = model["steps2"]
+        return any(any(r[j][k] != s2[i - 1][j][k] for k in "DBUC") for i, r in enumerate(s2) if i for j in (0, 1))
     st = model["steps"]
     changed = any(i == 0 and any(s[k] for k in "DBUC") or i > 0 and any(s[k] != st[i - 1][k] for k in "DBUC")
                   for i, s in enumerate(st))
@@ -583,13 +747,17 @@ def nontrivial(case, model):
 
 
 def key(case):
-    return repr((case.get("cls"), case.get("ops")))
+    return repr((case.get("cls"), case.get("ctor"), case.get("argkind"), case.get("lags"), case.get("ops")))
 
 
 def shrink(case):
     if case["kind"] == "table":
         return
     ops = case["ops"]
+    if case["kind"].startswith("alias"):
+        for i in range(len(ops) - 1, -1, -1):
+            yield dict(case, ops=ops[:i] + ops[i + 1:])
+        return
     for i in range(len(ops) - 1, -1, -1):
         yield dict(case, ops=ops[:i] + ops[i + 1:], kind="shrunk")
     for i, o in enumerate(ops):
